@@ -15,7 +15,7 @@ import (
 
 // droppedErrExceptions: reviewed call sites whose error result is intentionally not used.
 var droppedErrExceptions = map[string]string{
-	"pogreb.openFile$1->*clean": "deferred cleanup: closes a file whose opening sequence already failed (clean is nil on success)",
+	"pogreb.openFile$1->*clean":               "deferred cleanup: closes a file whose opening sequence already failed (clean is nil on success)",
 	"pogreb.readGobFile->defer fs.File.Close": "read-only file: nothing to lose on Close",
 }
 
@@ -89,6 +89,27 @@ func ruleErrs(r *Run, p *Program, rule string) {
 					r.ok(rule, key, p.Pos(in.Pos()), "error dropped on a path that already returns another error (cleanup)", true)
 					return
 				}
+			}
+			// cleanup inside a (deferred) closure that runs only when a captured error variable is non-nil
+			if f.Parent() != nil && controlledBy(f, in, func(c *Cond) bool {
+				e := errNonNilEdge(c)
+				if e == nil {
+					return false
+				}
+				for _, s := range sources(e) {
+					if u, ok := s.(*ssa.UnOp); ok {
+						if _, isFV := u.X.(*ssa.FreeVar); isFV {
+							return true
+						}
+					}
+					if _, isFV := s.(*ssa.FreeVar); isFV {
+						return true
+					}
+				}
+				return false
+			}) {
+				r.ok(rule, key, p.Pos(in.Pos()), "error dropped in a closure that runs only when the enclosing function's error is already non-nil (cleanup)", true)
+				return
 			}
 			// non-I/O std helpers whose error is irrelevant
 			if strings.HasPrefix(name, "(*expvar.") || strings.Contains(name, "log.Logger") {
@@ -489,11 +510,16 @@ func canonSrc(v ssa.Value) string {
 		}
 		return "rangeindex"
 	case *ssa.BinOp:
+		if _, isPhi := strip(x.X).(*ssa.Phi); isPhi {
+			if _, isC := x.Y.(*ssa.Const); isC && (x.Op == token.ADD || x.Op == token.SUB) {
+				return "loopindex"
+			}
+		}
 		return canonSrc(x.X) + x.Op.String() + canonSrc(x.Y)
 	case *ssa.Const:
 		return "const"
 	case *ssa.Phi:
-		return "phi"
+		return "loopindex"
 	case *ssa.Convert:
 		return canonSrc(x.X)
 	case *ssa.Slice:
@@ -504,27 +530,27 @@ func canonSrc(v ssa.Value) string {
 
 // narrowingTable: reviewed narrowing / sign-changing conversions of package pogreb (function: target(source) -> justification).
 var narrowingTable = map[string]string{
-	"(*pogreb.DB).Get$1:uint16(len(captured:[]byte))":       "comparison idiom: a truncated length can only produce a false length match, which the following bytes.Equal (C01.match-equal) rejects",
-	"(*pogreb.DB).GetAppend$1:uint16(len(captured:[]byte))": "comparison idiom, see Get",
-	"(*pogreb.DB).Has$1:uint16(len(captured:[]byte))":       "comparison idiom, see Get",
-	"(*pogreb.DB).put$1:uint16(len(captured:[]byte))":       "comparison idiom, see Get; in Put the key length was bounded before",
-	"(*pogreb.DB).del$1:uint16(len(captured:[]byte))":       "comparison idiom, see Get",
-	"(*pogreb.DB).Put:uint16(len(param:[]byte))":            "guarded: Put returns errKeyTooLarge when len(key) > MaxKeyLength (<= MaxUint16) before this point [checked by C16.reject-before-effect]",
-	"(*pogreb.DB).Put:uint32(len(param:[]byte))":            "guarded: Put returns errValueTooLarge when len(value) > MaxValueLength (< 2^31) before this point",
-	"*:uint16(len(pogreb.record.key))":   "bounded source: record.key is data[6:6+keySize] with keySize decoded from 16 bits",
-	"*:uint32(len(pogreb.record.value))": "bounded source: record.value has a length decoded from 31 bits",
-	"*:uint32(len(pogreb.record.data))":  "bounded source: record.data is 10+K+V with K<2^16, V<2^31",
-	"(*pogreb.DB).pickForCompaction:uint32(pogreb.file.size)": "segment size is bounded by maxSegmentSize (uint32) through the guard in writeRecord",
-	"(*pogreb.datalog).del:uint32(len(pogreb.encodeDeleteRecord()))": "delete record is 10+K bytes, K <= 65535",
+	"(*pogreb.DB).Get$1:uint16(len(captured:[]byte))":                 "comparison idiom: a truncated length can only produce a false length match, which the following bytes.Equal (C01.match-equal) rejects",
+	"(*pogreb.DB).GetAppend$1:uint16(len(captured:[]byte))":           "comparison idiom, see Get",
+	"(*pogreb.DB).Has$1:uint16(len(captured:[]byte))":                 "comparison idiom, see Get",
+	"(*pogreb.DB).put$1:uint16(len(captured:[]byte))":                 "comparison idiom, see Get; in Put the key length was bounded before",
+	"(*pogreb.DB).del$1:uint16(len(captured:[]byte))":                 "comparison idiom, see Get",
+	"(*pogreb.DB).Put:uint16(len(param:[]byte))":                      "guarded: Put returns errKeyTooLarge when len(key) > MaxKeyLength (<= MaxUint16) before this point [checked by C16.reject-before-effect]",
+	"(*pogreb.DB).Put:uint32(len(param:[]byte))":                      "guarded: Put returns errValueTooLarge when len(value) > MaxValueLength (< 2^31) before this point",
+	"*:uint16(len(pogreb.record.key))":                                "bounded source: record.key is data[6:6+keySize] with keySize decoded from 16 bits",
+	"*:uint32(len(pogreb.record.value))":                              "bounded source: record.value has a length decoded from 31 bits",
+	"*:uint32(len(pogreb.record.data))":                               "bounded source: record.data is 10+K+V with K<2^16, V<2^31",
+	"(*pogreb.DB).pickForCompaction:uint32(pogreb.file.size)":         "segment size is bounded by maxSegmentSize (uint32) through the guard in writeRecord",
+	"(*pogreb.datalog).del:uint32(len(pogreb.encodeDeleteRecord()))":  "delete record is 10+K bytes, K <= 65535",
 	"(*pogreb.datalog).writeRecord:uint32((*pogreb.file).append#0)":   "guarded: the append offset is < maxSegmentSize (uint32) by the size test at the top of writeRecord",
-	"(*pogreb.datalog).nextWritableSegmentID:uint16(phi+const)":      "range index over [maxSegments]*segment with maxSegments = MaxInt16",
+	"(*pogreb.datalog).nextWritableSegmentID:uint16(loopindex)":       "range index over [maxSegments]*segment with maxSegments = MaxInt16",
 	"pogreb.encodeRecord:uint32(len(param:[]byte)+len(param:[]byte))": "callers bound key (<=65535) and value (<2^31) lengths: Put's checks; delete records carry no value; recovery/compaction re-encode nothing",
 	"pogreb.encodeRecord:uint16(len(param:[]byte))":                   "see above: key length bounded by Put / by the stored key matched in Delete",
 	"pogreb.encodeRecord:uint32(len(param:[]byte))":                   "see above: value length bounded by Put",
-	"*:uint64(pogreb.bucket.next)":                       "same-width reinterpretation of a non-negative file offset",
-	"*:int64((encoding/binary.littleEndian).Uint64())":   "same-width reinterpretation of a stored file offset",
-	"*:int64(pogreb.segmentIterator.offset)":             "widening (uint32 -> int64)",
-	"*:uint16(strconv.ParseUint#0)":                      "accepted only for ParseUint(.., 10, 16): checked by C18.names",
+	"*:uint64(pogreb.bucket.next)":                                    "same-width reinterpretation of a non-negative file offset",
+	"*:int64((encoding/binary.littleEndian).Uint64())":                "same-width reinterpretation of a stored file offset",
+	"*:int64(pogreb.segmentIterator.offset)":                          "widening (uint32 -> int64)",
+	"*:uint16(strconv.ParseUint#0)":                                   "accepted only for ParseUint(.., 10, 16): checked by C18.names",
 }
 
 func ruleC16Narrowing(r *Run, p *Program, rule string) {
